@@ -6,6 +6,7 @@ package main
 // from analysing /repo.
 
 import (
+	"hash/fnv"
 	"encoding/json"
 	"fmt"
 	"os"
@@ -22,6 +23,7 @@ type variantMeta struct {
 	Property string   `json:"property"`
 	Expect   []string `json:"expect"` // rule ids expected to report (any of them), e.g. ["C03.4"]
 	Also     []string `json:"also_properties"`
+	Alarms   string   `json:"alarms_at_intake"` // benign variants: properties whose check alarmed when it was filed
 }
 
 func runSeededCorpus(pid, repo string) map[string]any {
@@ -31,6 +33,7 @@ func runSeededCorpus(pid, repo string) map[string]any {
 		id, status, detail string
 	}
 	var todo []variantMeta
+	nSampledOut := 0
 	for _, e := range ents {
 		if !e.IsDir() {
 			continue
@@ -54,7 +57,21 @@ func runSeededCorpus(pid, repo string) map[string]any {
 			}
 		}
 		if m.Kind == "benign" {
-			applies = true
+			// every benign variant that ever alarmed under this property is a regression test of its rules and always
+			// runs; the others are spread over the properties (a third each: variant hash + property number), so that
+			// the 20 thorough runs together stay within minutes. `VERIF_ALL_BENIGN=1` runs them all
+			// (tools/runvariants_par.sh does the full cross product).
+			applies = strings.Contains(m.Alarms, pid) || os.Getenv("VERIF_ALL_BENIGN") != ""
+			if !applies {
+				h := fnv.New32a()
+				h.Write([]byte(m.ID))
+				pn := 0
+				fmt.Sscanf(pid, "C%d", &pn)
+				applies = (int(h.Sum32()%3)+pn)%3 == 0
+			}
+			if !applies {
+				nSampledOut++
+			}
 		}
 		if applies {
 			todo = append(todo, m)
@@ -157,5 +174,5 @@ func runSeededCorpus(pid, repo string) map[string]any {
 			nskip++
 		}
 	}
-	return map[string]any{"variants": len(results), "reported": nrep, "benign_silent": nsil, "skipped": nskip, "missed": missed, "false_alarms": fa, "results": list}
+	return map[string]any{"variants": len(results), "reported": nrep, "benign_silent": nsil, "skipped": nskip, "missed": missed, "false_alarms": fa, "benign_run_under_other_properties": nSampledOut, "results": list}
 }
